@@ -14,7 +14,7 @@ for p in props:
                 property_id=pid, quick_cmd=f"./check {pid} quick", thorough_cmd=f"./check {pid} thorough",
                 evidence_file=f"evidence/{pid}.json", replay_cmd_template="./check --replay {path}",
                 engine=getattr(m, "ENGINE", "pyvc+xlift"),
-                level_claimed=dict(category=m.LEVEL, text=getattr(m, "LEVEL_TEXT", m.EXPLANATION[:600]), design_ref=f"DESIGN.md section 5 {pid}"),
+                level_claimed=dict(category=m.LEVEL, text=getattr(m, "LEVEL_TEXT", m.EXPLANATION[:1200]), design_ref=f"DESIGN.md section 5 {pid}"),
                 level_note="; ".join(getattr(m, "TRUSTED", []) + getattr(m, "ASSUMPTIONS", []))[:1500] or "see evidence",
                 technique=getattr(m, "TECHNIQUE", "contract-based deductive verification: VCs generated from the real AST (pyvc) discharged by z3/cvc5; real code over exact reals (xlift); bounded stand-ins labelled")))
             continue
